@@ -148,6 +148,7 @@ func checkC09(c *Ctx) {
 	c09Verifier(c, rows)
 	c09OIDs(c)
 	c09PSS(c)
+	c09KeyUsage(c)
 }
 
 // c09Creator: evaluate the raw/digest predicate of one creator over all models
@@ -778,5 +779,51 @@ func c09PSS(c *Ctx) {
 	}
 	if nSign < 3 {
 		c.Undecided("T-PSS-opts", "x509", "creators", fmt.Sprintf("only %d Sign calls found", nSign), token.NoPos)
+	}
+}
+
+// c09KeyUsage: KeyUsage has 9 defined bits (DigitalSignature .. DecipherOnly = 1<<8); the value parseCertificate
+// stores must be able to carry the highest one. A stored value whose static range is provably below that bit
+// necessarily loses it on parse-back (a necessary condition of "parses back to the same field values").
+func c09KeyUsage(c *Ctx) {
+	rule := "K-C09-keyusage"
+	maxBit := int64(0)
+	sp := c.P.Pkgs["x509"]
+	if sp != nil {
+		for _, name := range sp.Types.Scope().Names() {
+			if cst, ok := sp.Types.Scope().Lookup(name).(*types.Const); ok && strings.HasSuffix(cst.Type().String(), "x509.KeyUsage") {
+				if v, ok := constant.Int64Val(cst.Val()); ok && v > maxBit {
+					maxBit = v
+				}
+			}
+		}
+	}
+	if maxBit < 256 {
+		c.Undecided(rule, "x509.KeyUsage", "constants", fmt.Sprintf("highest KeyUsage constant found is %d", maxBit), token.NoPos)
+		return
+	}
+	f := c.Fn("x509", "parseCertificate")
+	if f == nil {
+		c.Missing(rule, "x509.parseCertificate", "function", "not found")
+		return
+	}
+	lb := &LB{p: c.P, f: f, UsedContracts: map[string]bool{}}
+	n := 0
+	instrsOf(f, func(b *ssa.BasicBlock, in ssa.Instruction) {
+		st, ok := in.(*ssa.Store)
+		if !ok {
+			return
+		}
+		fa, ok := st.Addr.(*ssa.FieldAddr)
+		if !ok || fieldName(fa.X.Type(), fa.Field) != "KeyUsage" {
+			return
+		}
+		n++
+		c.Evals++
+		tooSmall := lb.prove([]cons{le(lb.linOf(st.Val), linConst(maxBit-1))}, b, nil, map[lvar]lin{}, 1)
+		c.Check(!tooSmall, rule, fname(f), fmt.Sprintf("parsed KeyUsage #%d can carry every defined bit", n), fmt.Sprintf("not provably below %d", maxBit), fmt.Sprintf("the value stored in Certificate.KeyUsage is provably below %d (bit 8, KeyUsageDecipherOnly): a certificate created with that usage parses back to a different KeyUsage", maxBit), st.Pos())
+	})
+	if n == 0 {
+		c.Undecided(rule, fname(f), "KeyUsage store", "not found", f.Pos())
 	}
 }
